@@ -17,6 +17,7 @@ import (
 	"github.com/internetarchive/Zeno/internal/pkg/config"
 	"github.com/internetarchive/Zeno/internal/pkg/postprocessor/extractor"
 	"github.com/internetarchive/Zeno/internal/pkg/postprocessor/sitespecific/ina"
+	"github.com/internetarchive/Zeno/internal/pkg/postprocessor/sitespecific/reddit"
 	"github.com/internetarchive/Zeno/pkg/models"
 )
 
@@ -31,10 +32,11 @@ const (
 	fSplit
 	fRange
 	fSrcset
+	fReddit
 	nScanFns
 )
 
-var scanNames = []string{"fileext", "likelyjson", "shortid", "linkhdr", "script", "jwplayer", "trimspace", "split", "range", "srcset"}
+var scanNames = []string{"fileext", "likelyjson", "shortid", "linkhdr", "script", "jwplayer", "trimspace", "split", "range", "srcset", "reddit"}
 
 func init() {
 	register(&Driver{
@@ -43,7 +45,7 @@ func init() {
 		Header:         "From ZenoV Require Import Lib.Harness Safe.GoOps Safe.Scanners Safe.SafeHarness.\nOpen Scope Z_scope.\n",
 		CaseType:       "scase",
 		Footer:         "\nDefinition DIFF := Eval vm_compute in sdiffs cases.\nPrint DIFF.\nDefinition MON := Eval vm_compute in smons cases.\nPrint MON.\n",
-		Rule:           "one case = (function, byte string): hasFileExtension, isLikelyJSON, GetShortID, ExtractURLsFromHeader, extractFromScriptContent (with the JSON decoder's answers on every candidate payload as oracle table), srcsetURLs (the srcset splitting helper of HTMLAssets), ina.extractJWPlayerVersion (dead code), and the library models TrimSpace / Split / range-over-string; inputs are structured (URLs, headers, scripts), boundary-dense (lengths around every guard) and malformed (random bytes, invalid UTF-8, Unicode white space); distinct by input text; non-trivial when the function's answer is not the trivial one (true, a non-empty list, an output different from the input, or a panic)",
+		Rule:           "one case = (function, byte string): hasFileExtension, isLikelyJSON, GetShortID, ExtractURLsFromHeader, extractFromScriptContent (with the JSON decoder's answers on every candidate payload as oracle table), srcsetURLs (the srcset splitting helper of HTMLAssets), ina.extractJWPlayerVersion (dead code), reddit.ExtractAPIPostPermalinks (with the JSON decoder's dist / children as oracle row), and the library models TrimSpace / Split / range-over-string; inputs are structured (URLs, headers, scripts), boundary-dense (lengths around every guard) and malformed (random bytes, invalid UTF-8, Unicode white space); distinct by input text; non-trivial when the function's answer is not the trivial one (true, a non-empty list, an output different from the input, or a panic)",
 		Setup:          func() { config.InitConfig() },
 		Gen:            genScan,
 		Exec:           execScan,
@@ -210,6 +212,11 @@ func genScanInput(r *Rng, fn int) []byte {
 			return randBytes(r, r.Intn(16))
 		}
 		return []byte(randTokens(r, toks, r.Intn(8)))
+	case fReddit:
+		if r.Chance(15) {
+			return mutate(r, genSiteJSON(r, 0), 1+r.Intn(2), siteDict)
+		}
+		return genSiteJSON(r, 0)
 	case fSrcset:
 		toks := []string{"a.png", "b.jpg 2x", " ", ",", ", ", "  ", "\t", "\n", "\f", "\r", "\v", "1x", "c.gif 100w", ",,", "x y z", "d,e.png", "f.png,", "g.png,,", ",h", "\u00a0", "\u2003", "\xff", "i.png 1x,j.png", "(k, l)"}
 		if r.Chance(15) {
@@ -331,6 +338,23 @@ func execScan(in string) Result {
 				n++
 			}
 			obs, nontrivial = "(OInts "+coqList(pos)+")", n != len(s)
+		case fReddit:
+			// oracle: what encoding/json makes of the body (the model takes dist and the permalinks from it)
+			var post reddit.Post
+			if err := json.Unmarshal(data, &post); err == nil {
+				perms := make([]string, 0, len(post.Data.Children))
+				for _, c := range post.Data.Children {
+					perms = append(perms, c.Data.Permalink)
+				}
+				oracle = "[(" + coqZ(int64(post.Data.Dist)) + ", Some " + coqSList(perms) + ")]"
+			}
+			item := models.NewItem("i", docURL("https://www.reddit.com/api/info.json?id=t3_abc", 200, http.Header{"Content-Type": {"application/json"}}, data), "")
+			outl, err := reddit.ExtractAPIPostPermalinks(item)
+			if err != nil {
+				obs = "OErr"
+			} else {
+				obs, nontrivial = obsList(urlRaws(outl)), true
+			}
 		case fSrcset:
 			l := extractor.VerifC10SrcsetURLs(s)
 			obs, nontrivial = obsList(l), len(l) > 0
